@@ -2,8 +2,10 @@
 #include <SQuIDS/SUNalg.h>
 using namespace squids;
 // which: 0 Projector, 1 Identity, 2 PosProjector, 3 NegProjector, 4 Generator
-extern "C" int h_factory(unsigned which, unsigned d, unsigned i, double* o){
+// hist=1: a vector of the same dimension filled with the value junk has been destroyed before, so the factory may be handed its block back
+extern "C" int h_factory(unsigned which, unsigned d, unsigned i, double* o, unsigned hist, double junk){
   try{
+    if(hist){ SU_vector j(d); j.SetAllComponents(junk); }
     SU_vector v;
     switch(which){
       case 0: v = SU_vector::Projector(d,i); break;
